@@ -215,11 +215,14 @@ def rows(src, strip_comments):
 
 
 def quirks(src, strip_comments, fn_body):
-    """(perDb, rewatchKeeps) as the source has them, or a string saying what was not recognised.
+    """(perDb, rewatchKeeps, watchPurges) as the source has them, or a string saying what was not recognised.
       perDb         `watched_keys: HashMap<(usize, Vec<u8>), u64>` and neither Server::handle_exec passes the connection's
                     `db_index` to `was_modified_since` nor handle_unwatch passes `conn.db_index` to `unregister_watch`
                     (code as it is: `HashMap<Vec<u8>, u64>`, both use the connection's current database)
-      rewatchKeeps  handle_watch skips a key that is already in `watched_keys` (`.contains_key(`) before `register_watch`"""
+      rewatchKeeps  handle_watch skips a key that is already in `watched_keys` (`.contains_key(`) before `register_watch`
+      watchPurges   StorageEngine::register_watch (engine.rs) drops a stored value whose deadline has passed before it
+                    registers: its body tests `is_expired()`, removes (`.data.remove(`) and marks (`mark_modified(`) ahead
+                    of `watch_tracker.register_watch(`; none of the three = false; anything in between is not recognised"""
     t = strip_comments(src("storage/commands/transactions.rs"))
     sv = strip_comments(src("network/server.rs"))
     m = re.search(r"watched_keys\s*:\s*HashMap<\s*(\(\s*usize\s*,\s*Vec<u8>\s*\)|Vec<u8>)\s*,\s*u64\s*>", t)
@@ -239,7 +242,21 @@ def quirks(src, strip_comments, fn_body):
         return "watch list keyed by (db,key): %s, EXEC checks current db: %s, UNWATCH unregisters in current db: %s - not uniform" % (keyed, exec_cur, unw_cur)
     i = hw.find("register_watch")
     rewatch = bool(re.search(r"watched_keys\s*\.\s*contains_key\s*\(", hw[:i]))
-    return per_db, rewatch
+    eng = strip_comments(src("storage/engine.rs"))
+    block = impl_block(eng, r"\bimpl\s+StorageEngine\s*\{")
+    rw = fn_body(block or "", "register_watch")
+    if rw is None or "watch_tracker.register_watch(" not in rw:
+        return "StorageEngine::register_watch not found"
+    head = rw[:rw.find("watch_tracker.register_watch(")]
+    signs = [bool(re.search(r"\bis_expired\s*\(", head)), bool(re.search(r"\.data\s*\.\s*remove\s*\(", head)),
+             bool(re.search(r"\bmark_modified\s*\(", head))]
+    if all(signs):
+        purges = True
+    elif not any(signs):
+        purges = False
+    else:
+        return "register_watch: expiry test / removal / mark before the registration: %s - not uniform" % signs
+    return per_db, rewatch, purges
 
 
 def lean_str_list(xs):
@@ -266,10 +283,11 @@ def generate(src, strip_comments, fn_body, header):
     lines.append("")
     lines.append("/-- How the watch list is kept (src/storage/commands/transactions.rs, Server::handle_exec):")
     lines.append("    `perDb` = entries are keyed by (database, key) and checked / unregistered there;")
-    lines.append("    `rewatchKeeps` = WATCH of an already watched key keeps the first baseline. -/")
+    lines.append("    `rewatchKeeps` = WATCH of an already watched key keeps the first baseline;")
+    lines.append("    `watchPurges` = StorageEngine::register_watch drops (and marks) an expired stored value first. -/")
     if isinstance(q, str):
         lines.append('def watchQ : Ferrous.Watch.Q := extraction_failed "%s"' % q.replace('"', "'"))
     else:
-        lines.append("def watchQ : Ferrous.Watch.Q := ⟨%s, %s⟩" % ("true" if q[0] else "false", "true" if q[1] else "false"))
+        lines.append("def watchQ : Ferrous.Watch.Q := ⟨%s, %s, %s⟩" % tuple("true" if x else "false" for x in q))
     lines += ["", "end Ferrous.Gen", ""]
     return "\n".join(lines)
